@@ -19,8 +19,8 @@ import (
 //	return        `h.RetNNN()`
 //	param-any     `h.TakeAny(a)`  (parameter of type interface{})
 //	return-any    `h.RetAny()`    (result of type interface{} holding the value)
-//	param(api)    for types without a declared method: the calls proxy.call makes, through the
-//	              object API (NewGoType, GetConverter, To, reflect call of a func(T) T)
+//	param(api)    for types without a declared method: the conversions proxy.call makes, through
+//	              the object API (NewGoType, GetConverter, To, From)
 //
 // Sources of the script value `a`: (none) = the Go value itself, converted by the global route
 // first; "script" = the natural script value (int, float, string, list, map, nil, time) built by
@@ -456,8 +456,9 @@ func members(t T, v reflect.Value, name, src string) res {
 	return all
 }
 
-// apiCall repeats, through the exported object API, what Proxy.call does for one parameter of
-// type rt and one result of type rt.
+// apiCall does, through the exported object API, what Proxy.call does to convert one argument of
+// type rt and one result of type rt (NewGoType, GetConverter, To, From). It does not depend on how
+// Proxy.call treats a converter result of the wrong Go type: that is reported as a converter failure.
 func apiCall(rt reflect.Type, a object.Object, ref node, src string) (r res) {
 	stage := "convert"
 	defer func() {
@@ -477,35 +478,40 @@ func apiCall(rt reflect.Type, a object.Object, ref node, src string) (r res) {
 	if err != nil {
 		return rejected(err.Error())
 	}
-	var in reflect.Value
+	var got reflect.Value
 	if a == object.Nil {
-		if rt.Kind() == reflect.Interface {
-			in = reflect.New(rt).Elem()
-		} else {
-			in = reflect.Zero(rt)
-		}
+		got = reflect.Zero(rt) // Proxy.call passes the zero value for nil without converting
 	} else {
 		x, err := conv.To(a)
 		if err != nil {
 			return rejected(err.Error())
 		}
-		in = reflect.ValueOf(x)
+		xv := reflect.ValueOf(x)
+		switch {
+		case !xv.IsValid():
+			switch rt.Kind() {
+			case reflect.Ptr, reflect.Slice, reflect.Map, reflect.Interface:
+				got = reflect.Zero(rt)
+			default:
+				return failed("converter-returned-nil", fmt.Sprintf("the converter of %s returned nil without an error for a %s", rt, a.Type()))
+			}
+		default:
+			// storing the converter's result in a variable of the parameter type is what any caller
+			// has to do; reflect panics here when the converter returned a value of another Go type
+			stage = "store the converter result (a " + xv.Type().String() + ") in a " + rt.String()
+			got = reflect.New(rt).Elem()
+			got.Set(xv)
+			stage = "convert"
+		}
 	}
-	var got reflect.Value
-	fn := reflect.MakeFunc(reflect.FuncOf([]reflect.Type{rt}, []reflect.Type{rt}, false), func(args []reflect.Value) []reflect.Value {
-		got = args[0]
-		return args
-	})
-	stage = "call"
-	outs := fn.Call([]reflect.Value{in})
-	if gr := goSide(ref, got, src, "argument received by func("+rt.String()+")"); gr.Status != "converted" {
+	if gr := goSide(ref, got, src, "value converted for a parameter of type "+rt.String()); gr.Status != "converted" {
 		return gr
 	}
 	if rt == errorType {
 		return converted()
 	}
 	stage = "result"
-	obj, err := conv.From(outs[0].Interface())
+	obj, err := conv.From(got.Interface())
 	if err != nil {
 		return failed("result-rejected", "the argument was accepted, but the same value as a result is rejected: "+err.Error())
 	}
